@@ -143,8 +143,9 @@ func run(pl Plan) (out vk.Outcome, verr error) {
 			}()
 			l := &gatedLocker{owner: -1, armed: map[int]chan struct{}{}, mu: make(chan struct{}, 1)}
 			c := xsync.NewContextCond(l)
+			everSignalled := false // a Signal without a taker leaves a remembered token behind, also for later rounds
 			for ri, p := range pl.Rounds {
-				if verr = script(l, c, p, &out); verr != nil {
+				if verr = script(l, c, p, &out, &everSignalled); verr != nil {
 					break
 				}
 				if ri > 0 {
@@ -159,7 +160,7 @@ func run(pl Plan) (out vk.Outcome, verr error) {
 	return out, verr
 }
 
-func script(l *gatedLocker, c *xsync.ContextCond, p Round, out *vk.Outcome) error {
+func script(l *gatedLocker, c *xsync.ContextCond, p Round, out *vk.Outcome, everSignalled *bool) error {
 	ws := make([]*waiter, p.K)
 	var mu sync.Mutex
 	start := func(i int) {
@@ -198,16 +199,37 @@ func script(l *gatedLocker, c *xsync.ContextCond, p Round, out *vk.Outcome) erro
 			synctest.Wait() // now parked in the select
 		}
 	}
-	// model of what a one-slot condition variable must at least do (for the signature of a failure)
-	token, coalesced, uncertain := false, false, false
-	inWindow, parked := map[int]bool{}, map[int]bool{}
+	// Model of a condition variable whose wakeup is ONE buffered slot (what the type documents itself
+	// to be), used only to put a signature on a "too few woken" failure: did some Signal arrive while the
+	// slot was already full although somebody still needed waking? Which parked waiter takes a token is
+	// the runtime's choice, so the model tracks the set of all possible states (deterministically).
+	type mstate struct {
+		token          bool
+		parked, window uint8
+	}
+	var init mstate
+	inWindow := map[int]bool{} // used for labels only
 	for i := 0; i < p.K; i++ {
 		if p.Parked[i] {
-			parked[i] = true
+			init.parked |= 1 << uint(i)
 		} else {
+			init.window |= 1 << uint(i)
 			inWindow[i] = true
 		}
 	}
+	states := []mstate{init}
+	dedup := func(in []mstate) []mstate {
+		seen := map[mstate]bool{}
+		var outS []mstate
+		for _, st := range in {
+			if !seen[st] {
+				seen[st] = true
+				outS = append(outS, st)
+			}
+		}
+		return outS
+	}
+	coalesced, uncertain := false, false
 	cancelled := map[int]bool{}
 	signals, broadcasts := 0, 0
 	held := false // the harness itself holds c.L (a producer may Signal/cancel inside its critical section)
@@ -226,34 +248,63 @@ func script(l *gatedLocker, c *xsync.ContextCond, p Round, out *vk.Outcome) erro
 			if len(inWindow) > 0 {
 				signalWithWindow = true
 			}
-			if token {
-				if len(inWindow)+len(parked) > 0 {
-					coalesced = true
+			var nx []mstate
+			for _, st := range states {
+				switch {
+				case st.token:
+					if st.parked|st.window != 0 {
+						coalesced = true // this Signal found the slot full while somebody still waits
+					}
+					nx = append(nx, st)
+				case st.parked != 0:
+					for b := 0; b < p.K; b++ {
+						if st.parked&(1<<uint(b)) != 0 {
+							n2 := st
+							n2.parked &^= 1 << uint(b)
+							nx = append(nx, n2)
+						}
+					}
+				default:
+					st.token = true
+					nx = append(nx, st)
 				}
-			} else if len(parked) > 0 {
-				for i := range parked { // someone parked takes it
-					delete(parked, i)
-					break
-				}
-			} else {
-				token = true
 			}
+			states = dedup(nx)
+			*everSignalled = true
 			c.Signal()
 		case "broadcast":
 			broadcasts++
-			inWindow, parked = map[int]bool{}, map[int]bool{}
-			token = false
+			inWindow = map[int]bool{}
+			states = []mstate{{}}
 			c.Broadcast()
 		case "open":
 			if inWindow[s.W] {
 				delete(inWindow, s.W)
-				if cancelled[s.W] {
-					uncertain = true
-				} else if token {
-					token = false
-				} else {
-					parked[s.W] = true
+			}
+			{
+				bit := uint8(1) << uint(s.W)
+				var nx []mstate
+				for _, st := range states {
+					if st.window&bit == 0 {
+						nx = append(nx, st)
+						continue
+					}
+					st.window &^= bit
+					if cancelled[s.W] { // it returns either way; it may or may not take a token with it
+						nx = append(nx, st)
+						if st.token {
+							st.token = false
+							nx = append(nx, st)
+						}
+					} else if st.token {
+						st.token = false
+						nx = append(nx, st)
+					} else {
+						st.parked |= bit
+						nx = append(nx, st)
+					}
 				}
+				states = dedup(nx)
 			}
 			open(s.W)
 		case "lock":
@@ -271,7 +322,10 @@ func script(l *gatedLocker, c *xsync.ContextCond, p Round, out *vk.Outcome) erro
 		case "cancel":
 			if !cancelled[s.W] {
 				cancelled[s.W] = true
-				delete(parked, s.W)
+				for i := range states { // if it is parked it leaves (by its context); if it sits in the window it is only marked
+					states[i].parked &^= 1 << uint(s.W)
+				}
+				states = dedup(states)
 			}
 			ws[s.W].cancel()
 		}
@@ -282,7 +336,7 @@ func script(l *gatedLocker, c *xsync.ContextCond, p Round, out *vk.Outcome) erro
 		// a parked waiter whose context was cancelled has returned by the next quiescence
 		// (while the harness holds c.L a waiter that was already woken is legitimately queued on the lock, so
 		// the promptness of a cancelled Wait is only judged if nobody can have been woken yet)
-		if s.Quiesce && !(held && signals+broadcasts > 0) {
+		if s.Quiesce && !(held && (signals+broadcasts > 0 || *everSignalled)) {
 			for i, w := range ws {
 				mu.Lock()
 				ret := w.returned
